@@ -276,6 +276,21 @@ Section NestedInstance.
       eapply IH; eauto. eapply setattr_deep; eauto.
   Qed.
 
+  Lemma vals_deep_set (l : kwargs) n v : vals_deep l = true -> dv v = true -> vals_deep (alist_set l n v) = true.
+  Proof.
+    unfold Entry.vals_deep. intros Hl Hv. induction l as [|[k x] t IH]; cbn [alist_set forallb snd].
+    - rewrite Hv. reflexivity.
+    - cbn [forallb snd] in Hl. apply andb_true_iff in Hl. destruct Hl as [H1 H2].
+      destruct (pystr_eqb k n); cbn [forallb snd]; [rewrite Hv; exact H2 | rewrite H1; exact (IH H2)].
+  Qed.
+
+  Lemma vals_deep_merge (base over : kwargs) : vals_deep base = true -> vals_deep over = true -> vals_deep (merge_kw base over) = true.
+  Proof.
+    unfold merge_kw. revert base. induction over as [|[n v] t IH]; intros base Hb Ho; [exact Hb|].
+    unfold Entry.vals_deep in Ho. cbn [forallb snd] in Ho. apply andb_true_iff in Ho. destruct Ho as [H1 H2].
+    cbn [fold_left fst snd]. apply IH; [apply vals_deep_set; assumption | exact H2].
+  Qed.
+
   Lemma defaults_deep c kw : class_defaults_deep c = true -> vals_deep (defaults_of c kw) = true.
   Proof.
     unfold Entry.class_defaults_deep, Entry.vals_deep, defaults_of. intro H.
@@ -356,9 +371,9 @@ Section NestedInstance.
       unfold with_instance, with_class in Ep. destruct (find_class e cn0) eqn:E0; [|discriminate].
       inversion Ep; subst. split; [|eapply class_deep; eauto].
       rewrite dv_struct in Hcur. apply andb_true_iff in Hcur as [_ Hattrs].
-      unfold clone_kwargs, Entry.vals_deep. rewrite forallb_app, forallb_flat_map'.
-      apply andb_true_iff; split; [|exact Hen].
-      apply forallb_forall. intros k _. destruct (alist_has over k); [reflexivity|].
+      unfold clone_kwargs. apply vals_deep_merge; [|exact Hen].
+      unfold cast_kwargs, Entry.vals_deep. rewrite forallb_flat_map'.
+      apply forallb_forall. intros k _.
       destruct (getattr_opt _ a0 k) as [v|] eqn:Eg; [|reflexivity].
       destruct (not_none v); [|reflexivity]. simpl. rewrite (getattr_deep _ a0 k v Hattrs (class_deep _ _ He E0) Eg). reflexivity.
     - (* cast *)
